@@ -466,6 +466,12 @@ def rule_orchestration(ctx):
     # the variable that holds the cache: the one passed as cache= to the first step
     first_call = steps[0][2]
     cache_var = next((k.value.id for k in first_call.keywords if k.arg == 'cache' and isinstance(k.value, ast.Name)), None)
+    if cache_var is None:
+        # the same argument passed by position
+        from ..model import bind_args
+        callee = ctx.prog.funcs.get(ctx.prog.resolve_call(f, first_call))
+        arg = bind_args(callee, first_call).get('cache') if callee is not None else None
+        cache_var = arg.id if isinstance(arg, ast.Name) else None
     ctx.need(cache_var is not None, f"{fq}: cannot identify the cache variable")
     final = r.env.get(cache_var)
     while final is not None and final[0] == 'after':
